@@ -1,6 +1,7 @@
 package main
 
 import (
+	"sort"
 	"fmt"
 	"go/ast"
 	"go/token"
@@ -814,6 +815,24 @@ func (x *Exec) doReturn(st *State, vals []*Term, at ast.Node, implicit bool) {
 			g := x.evalSpec(st, e.Expr)
 			x.oblige(st, "post", e.Label, g, at)
 		}
+		// ghost frame: a counter the contract does not talk about (ghostset or a
+		// postcondition mentioning it) must be left as it was, because callers
+		// assume exactly that
+		if es := fr.entry; es != nil {
+			declared := map[string]bool{}
+			for _, n := range ghostsMentioned(fr.fi) {
+				declared[n] = true
+			}
+			for _, g := range fr.fi.GhostSets {
+				declared[g.Name] = true
+			}
+			for _, name := range sortedKeys(st.ghost) {
+				if declared[name] {
+					continue
+				}
+				x.oblige(st, "ghost", "counter "+name+" changed without a clause saying so", Eq(x.ghostGet(st, name), x.ghostGet(es, name)), at)
+			}
+		}
 		x.topReturns++
 		return
 	}
@@ -1027,8 +1046,35 @@ func (x *Exec) contractCall(st *State, fi *FuncInfo, args []*Term, call *ast.Cal
 			st.vars[rv] = results[i]
 		}
 	}
+	// ghost counters the callee's postconditions talk about may have changed
+	// (by calls it makes): they are unknown before those postconditions are
+	// assumed; counters it sets explicitly are handled by its ghostset clauses
+	for _, name := range ghostsMentioned(fi) {
+		set := false
+		for _, g := range fi.GhostSets {
+			if g.Name == name {
+				set = true
+			}
+		}
+		if !set {
+			x.ghostSet(st, name, x.fresh("ghost."+name, SInt))
+		}
+	}
 	for _, e := range fi.Ensures {
 		st.assume(x.evalSpec(st, e.Expr))
+	}
+	for _, e := range fi.AssumedEns {
+		st.assume(x.evalSpec(st, e.Expr))
+		msg := fmt.Sprintf("assumed postcondition %s of %s (used at call sites, not proved)", e.Label, fi.Name())
+		seenA := false
+		for _, a := range x.assumed {
+			if a == msg {
+				seenA = true
+			}
+		}
+		if !seenA {
+			x.assumed = append(x.assumed, msg)
+		}
 	}
 	for _, g := range fi.GhostSets {
 		x.ghostSet(st, g.Name, x.evalSpec(st, g.Expr))
@@ -1046,6 +1092,35 @@ func (x *Exec) contractCall(st *State, fi *FuncInfo, args []*Term, call *ast.Cal
 		}
 	}
 	return results
+}
+
+// ghostsMentioned: the ghost counters named in a function's postconditions.
+func ghostsMentioned(fi *FuncInfo) []string {
+	seen := map[string]bool{}
+	var out []string
+	scan := func(e ast.Expr) {
+		if e == nil {
+			return
+		}
+		ast.Inspect(e, func(n ast.Node) bool {
+			if c, ok := n.(*ast.CallExpr); ok && markerName(c) == "__ghost" && len(c.Args) == 1 {
+				name := strLit(c.Args[0], fi.Pkg.TypesInfo)
+				if name != "" && !seen[name] {
+					seen[name] = true
+					out = append(out, name)
+				}
+			}
+			return true
+		})
+	}
+	for _, e := range fi.Ensures {
+		scan(e.Expr)
+	}
+	for _, e := range fi.AssumedEns {
+		scan(e.Expr)
+	}
+	sort.Strings(out)
+	return out
 }
 
 // run f with the callee frame temporarily removed so that obligation names
@@ -1331,6 +1406,14 @@ func (x *Exec) evalMarker(st *State, call *ast.CallExpr, name string) *Term {
 			x.unsupported(call, "entry() outside a loop invariant")
 		}
 		tmp := x.loopEntry[len(x.loopEntry)-1].clone()
+		x.spec++
+		defer func() { x.spec-- }()
+		return x.eval(tmp, call.Args[0])
+	case "__iterstart":
+		if len(x.iterStart) == 0 {
+			x.unsupported(call, "iterstart() outside a progress clause of a for loop")
+		}
+		tmp := x.iterStart[len(x.iterStart)-1].clone()
 		x.spec++
 		defer func() { x.spec-- }()
 		return x.eval(tmp, call.Args[0])
